@@ -106,6 +106,7 @@ def c14(run):
                 nontrivial=lambda e: "cost" in e["out"] and len(set(e["out"]["cost"])) > 2)
     trace_stage(run, "cost-traces", "cost_trace",
                 nontrivial=lambda e: ("cost" in e["out"] and len(set(e["out"]["cost"])) > 2) or "ext" in e["out"])
+    _cache_stage(run, "wcet")
 
 
 @check("C08")
@@ -278,3 +279,39 @@ def c05(run):
     world_stage(run, "executor", "ros2sys", "MCRos2Exec.tla", "MCRos2Exec.cfg", slim=("id", "supply", "cbs"),
                 extra=["--family", "rtss21", "--nsys", _nsys(run, 900, 9000)])
     _ros_equational(run, "4,5")
+
+
+def _cache_stage(run, kind):
+    """histories on shared ExtrapolatingCurve clones, replayed through the CurveCache machine"""
+    trace_stage(run, "cache-histories", "cache", spec="TraceCache.tla", cfg="TraceCache.cfg", extra=["--kind", kind],
+                session_key=lambda ln: '"op":"new"' in ln,
+                nontrivial=lambda e: e["op"] in ("q", "it_next", "least") and e.get("ans", 0) > 1,
+                keyfn=lambda e: e)
+
+
+@check("C12")
+def c12(run):
+    run.cov["rule"] = ("curve_trace: Curve::from_trace on every event trace with <=5 events and gaps 0..3 (thorough: <=7, 0..4) x every "
+                       "prefix length, plus random longer traces, checked against the window counts of the trace for every window length "
+                       "up to twice the span; derive: from_arrival_bound / _until / From<Periodic|Sporadic|&ArrivalCurvePrefix> / "
+                       "ArrivalCurvePrefix::from_arrival_bound_until on random exact sources: never smaller than the source, equal up to the "
+                       "covered prefix; dmin_iter: delta_min_iter versus the table of number_arrivals; non-trivial = table not constant")
+    run.assumptions += ["traces are well-formed (the inferred prefix ends > 0)",
+                        "domination beyond the covered prefix is required for exact sources; loose sources (plain Curve beyond its prefix, "
+                        "ArrivalCurvePrefix beyond its horizon) are compared inside their exact region and against their exact root model"]
+    def nontriv(e):
+        o = e["out"]
+        t = o.get("eta") or o.get("der") or []
+        return len(set(t)) > 2
+    trace_stage(run, "derived", "c12", nontrivial=nontriv)
+
+
+@check("C13")
+def c13(run):
+    run.cov["rule"] = ("curve_ext: extrapolate / extrapolate_steps / extrapolate_with_bound on every super-additive prefix of length 2-3 with "
+                       "entries <=6 (thorough 8) x several horizons / step counts / bounds, plus random prefixes of length <=5: values inside "
+                       "the original prefix unchanged, never more arrivals than before, never below the tight curve of the sequences that "
+                       "respect the original prefix; cache stage: histories of queries on shared ExtrapolatingCurve clones replayed through "
+                       "the CurveCache state machine; non-trivial = table not constant")
+    trace_stage(run, "extrapolation", "c13", nontrivial=lambda e: len(set(e["out"].get("ext", []))) > 2)
+    _cache_stage(run, "arrival")
